@@ -984,6 +984,7 @@ def ptr_leaves(v):
         yield from ptr_leaves(v.fields)
 
 
+@guarded
 def mut_views(fns, src, nmax, name=None):
     """Every function of the crate that takes `&mut` storage and returns a mutable view of it (`&mut [T]`, `&mut GenericArray`, chunk views,
     flatten/unflatten/split by `&mut`): the returned pointer is derived from the `&mut` argument through mutable borrows / raw pointers only.
@@ -1046,7 +1047,7 @@ def mut_views(fns, src, nmax, name=None):
                         if Kc is not None:
                             ex.require(s2, ti == Kc, 'split: the tail does not start right behind the K-element head', short)
                 done.append(short)
-            except (NotImplementedError, Inconclusive, KeyError, AttributeError, TypeError) as e:
+            except Exception as e:      # anything the executor cannot encode for this one function: left to K, listed in the evidence
                 skipped.append('%s (%s)' % (short, str(e)[:80]))
     res.bounds += '; functions decided: %s; not encodable (left to K): %s' % (', '.join(sorted(set(done))), '; '.join(skipped) or 'none')
     if len(set(done)) < 8:
